@@ -419,6 +419,38 @@ fn run_standard(cx: &mut Ctx, args: &Args) {
             }
         }
     }
+    // directed at the two file-BASE arms folded into Known_C01 (two separators: neither side reads the base):
+    // "file:" + two separators and scheme-less two separators + host / drive-letter shapes + every sequence of
+    // <= 2 (quick) / 3 (thorough) tokens, against file bases with / without host and drive letter; the
+    // one-separator and no-separator prefixes stay in class 1 and check the border
+    {
+        let toks = ["/", "\\", "C:", "c|", "..", "%2E.", ".", "x", "?", "#"];
+        let pres = ["file://", "file:\\\\", "fIle:/\\h", "file://localhost", "file:///", "file://C:", "//", "\\\\", "/\\h.x", "///", "//C|", "\\/localhost/",
+                    "file:/", "file:", "/", ""];
+        let fbases = ["file:///tmp/x", "file://h/d/e", "file:///C:/a/b", "file://h.x/a/b/c?q#f"];
+        let fparsed: Vec<Url> = fbases.iter().map(|s| Url::parse(s).expect("directed file base")).collect();
+        let depth = if args.tier == "thorough" { 3 } else { 2 };
+        let mut seqs: Vec<String> = vec![String::new()];
+        let mut level: Vec<String> = vec![String::new()];
+        for _ in 0..depth {
+            let mut next = vec![];
+            for s in &level {
+                for t in toks.iter() {
+                    next.push(format!("{}{}", s, t));
+                }
+            }
+            seqs.extend(next.iter().cloned());
+            level = next;
+        }
+        for pre in pres.iter() {
+            for s in seqs.iter() {
+                let input = format!("{}{}", pre, s);
+                for bi in 0..fparsed.len() {
+                    spec_vs_impl(cx, "std-directed-filebase", Some((fbases[bi], &fparsed[bi])), &input);
+                }
+            }
+        }
+    }
     // bare references (empty, '?...', '#...') against every file base of the pool: outside class 1
     for (bi, b) in pool.iter().enumerate() {
         if b.starts_with("file:") {
